@@ -98,8 +98,19 @@ SvrVerdict(e) ==
 SvrWeightOf(X, sv, w, i) ==      \* coefficient of a row whose features are unique in X
     IF \E k \in 1..Len(sv) : sv[k] = X[i] THEN w[CHOOSE k \in 1..Len(sv) : sv[k] = X[i]] ELSE 0
 
+(* situation counters for the narrow-band family: all targets inside a band of width <= 2 eps
+   (a constant function has zero loss; the bias alone decides the tube clause), the skewed
+   part of it (band wider than eps), and fits that return no support vector at all *)
+YRange(y16) == SeqMax(y16) - SeqMin(y16)
+
 SvrTags(e) ==
     {"SvrFit", "Svr_" \o e.in.kernel.name}
+    \cup (IF YRange(e.in.y16) <= 2 * e.in.eps16 THEN {"SvrNarrowBand"} ELSE {})
+    \cup (IF YRange(e.in.y16) <= 2 * e.in.eps16 /\ YRange(e.in.y16) > e.in.eps16 THEN {"SvrBandSkewed"} ELSE {})
+    \cup (IF YRange(e.in.y16) = 0 THEN {"SvrConstantTargets"} ELSE {})
+    \cup (IF e.status = "ok" /\ Len(e.out.sv) = 0 THEN {"SvrNoSv"} ELSE {})
+    \cup (IF e.status = "ok" /\ Len(e.out.sv) = 0 /\ PsdKernel(e.in.kernel) /\ e.out.finite /\ e.out.fok
+          THEN {"SvrNoSvKKT"} ELSE {})
     \cup (IF e.status = "ok" /\ e.out.finite /\ e.out.wok
           THEN (IF PsdKernel(e.in.kernel) /\ e.out.fok THEN {"SvrKKT"} ELSE {"SvrKKTSkipped"})
                \cup (IF Len(e.out.sv) < Len(e.in.X) THEN {"SvrZeroWeight"} ELSE {})
@@ -190,6 +201,7 @@ HitNames == {"SvcFit", "Svc_linear", "Svc_rbf", "Svc_poly", "Svc_sigmoid", "SvcS
              "SvrFree", "SvrAtC", "SvrBoundAndInside", "SvrDupRows", "SvrExpansion", "SvrExpSkipped", "SvrNoResult",
              "K_linear", "K_rbf", "K_poly", "K_sigmoid", "KSkipped", "RbfTaylor", "SigTaylor",
              "KRoot2", "KRoot4", "KRootUndefined", "FitRootClosed",
+             "SvrNarrowBand", "SvrBandSkewed", "SvrConstantTargets", "SvrNoSv", "SvrNoSvKKT",
              "Gram_linear", "Gram_rbf", "Gram_sigmoid", "Gram_poly", "RbfFunctional", "SigAddition", "GramSingular",
              "Unknown"}
 
